@@ -9,7 +9,7 @@ from autobean_refactor.models.internal.repeated import Repeated
 CASES = {'quick': 1500, 'thorough': 40000}
 GATES = {
     'quick': {'evaluations': 40000, 'copies_checked': 30000, 'independence_checks': 2500, 'edits_on_copy_changing_it': 1500,
-              'edits_on_original_changing_it': 1500, 'copies_after_claim_history': 5000, 'copied_classes': 30, 'copies_with_claimed_comment': 2000},
+              'edits_on_original_changing_it': 1500, 'copies_after_claim_history': 5000, 'copied_classes': 30, 'copies_with_claimed_comment': 2000, 'container_copies': 2000},
     'thorough': {'evaluations': 1000000, 'copied_classes': 33},
 }
 RULE = ('case = one accepted generated document (both attribution modes; a third of the cases after a random claim/unclaim/auto-claim '
@@ -137,6 +137,38 @@ def run_case(col, r, idx):
             if claimed_history:
                 col.count('copies_after_claim_history')
             check_copy(col, text, path, m, orig_ids, dict(wit0, path=path))
+        # one deepcopy call over a container holding a model and one of its own descendants (a shared memo)
+        trees = walker.tree_models(f)
+        for _ in range(2):
+            path, m = r.choice(trees)
+            inner = [(p2, x) for p2, x in walker.walk(m, path) if x is not m]
+            if not inner:
+                continue
+            p2, sub = r.choice(inner)
+            col.ev()
+            col.count('container_copies')
+            wit = dict(wit0, path=path, inner=p2)
+            try:
+                got = copy.deepcopy({'outer': m, 'inner': [sub]})
+            except Exception as e:
+                col.violation(f'container-deepcopy-raised:{type(m).__name__}', f'copy.deepcopy of a container holding {path} and its descendant {p2} '
+                              f'raised {type(e).__name__}: {e}', wit)
+                return
+            c1, c2 = got['outer'], got['inner'][0]
+            col.nontrivial(text, 'container', path, p2)
+            for orig, c, pth in ((m, c1, path), (sub, c2, p2)):
+                if not (c == orig and orig == c) or common.pr(c) != common.pr(orig):
+                    col.violation(f'container-copy-differs:{type(orig).__name__}', f'copy of {pth} taken inside a container is not equal / prints differently', wit)
+                    return
+                if isinstance(c, mbase.RawTreeModel):
+                    errs = walker.check_tree(c, whole_store=True)
+                    if errs or any(id(t) in orig_ids for t in c.token_store):
+                        col.violation(f'container-copy-tree:{type(orig).__name__}', f'copy of {pth} taken inside a container: ' +
+                                      (errs[0][1] if errs else 'shares a token with the original'), wit)
+                        return
+            if isinstance(c1, mbase.RawTreeModel) and isinstance(c2, mbase.RawTreeModel) and c1.token_store is c2.token_store:
+                col.violation('container-copies-share-store', f'the copies of {path} and {p2} share one store', wit)
+                return
         # independence
         subs = walker.tree_models(f)
         for _ in range(2):
